@@ -1008,6 +1008,24 @@ func (env *SpecEnv) call(e *SExpr) Val {
 	case "select":
 		a := env.ev(args[0])
 		return VInt{T: Select(env.scalar(a, e), env.evalInt(args[1]))}
+	case "sumLen":
+		// sumLen(s, n): total length of the first n byte strings of s; evaluating it unfolds the
+		// recursive definition once (enough for running-sum loop invariants)
+		sl, ok := env.ev(args[0]).(VSlice)
+		if !ok {
+			env.fail("sumLen expects a slice of byte strings")
+		}
+		n := env.evalInt(args[1])
+		lenArr := env.st.heapGet("[]"+env.st.eng.typeKey(sl.Elem)+"#len", ArrSort(ArrSort(SInt)))
+		row := Select(lenArr, sl.Arr)
+		f := func(k *Term) *Term { return UF("sumlen", SInt, row, sl.Off, k) }
+		t := f(n)
+		prev := Sub(n, IntLit(1))
+		env.st.addFact(Eq(f(IntLit(0)), IntLit(0)))
+		env.st.addFact(Implies(Gt(n, IntLit(0)), Eq(t, Add(f(prev), Select(row, Add(sl.Off, prev))))))
+		env.st.addFact(Implies(Ge(n, IntLit(0)), Eq(f(Add(n, IntLit(1))), Add(t, Select(row, Add(sl.Off, n))))))
+		env.st.addFact(Implies(Ge(n, IntLit(0)), Ge(t, IntLit(0))))
+		return VInt{T: t}
 	case "seq":
 		sl, ok := env.ev(args[0]).(VSlice)
 		if !ok {
